@@ -12,7 +12,7 @@ from __future__ import annotations
 
 import ast
 
-from pv.q import text as qtext
+from pv.q import text as qtext, find_if
 from pv.model import AnalysisError, walk_no_nested, params, UNKNOWN
 
 CTX = "passlib.context"
@@ -217,11 +217,22 @@ def rule_d(model, rep):
     else:
         asg = [x for x in fl[0].body if isinstance(x, ast.Assign)]
         txt = qtext(asg[0].value) if asg else ""
-        lossless = (txt.loose("repr(value)") or txt.loose("str(value)") or txt.loose("float.__repr__")) and ":." not in txt and "%." not in txt and "round(" not in txt \
-            and ".rstrip('.')" not in txt
+        lossless = (txt.loose("repr(value)") or txt.loose("str(value)") or txt.loose("float.__repr__")) and not txt.loose(":.") and not txt.loose("%.") and not txt.loose("round(") \
+            and not txt.loose(".rstrip('.')")
         rep.check(lossless, R, site("CryptContext._render_ini_value"), txt, "a float vary_rounds is rendered with a text that parses back to the same float (and stays a float)",
                   witness="vary_rounds=0.125 is exported as 0.12 (or 1.0 as '1' -> re-imported as the integer 1): the re-imported context differs")
         rep.check("str(value)" in qtext(fl[0].orelse[0]) if fl[0].orelse else False, R, site("CryptContext._render_ini_value"), "else: str(value)", "other numbers via str()")
+    # booleans: the writer spells them str(True)/str(False); the reader must fold case for *text* and know both words
+    U = "passlib.utils"
+    ab = model.func(U, "as_bool")
+    uu = model.unit(U)
+    ts, fs = model.fold(uu, ast.Name(id="_true_set", ctx=ast.Load())), model.fold(uu, ast.Name(id="_false_set", ctx=ast.Load()))
+    br = find_if(ab, "isinstance(value, unicode_or_bytes)")
+    first = [ast.unparse(x) for x in br[0].body[:1]] if br else []
+    rep.check(first == ["clean = value.lower().strip()"] and isinstance(ts, (set, frozenset)) and "true" in ts and isinstance(fs, (set, frozenset)) and "false" in fs, R, site("as_bool").replace(CTX, U) if False else f"{U}:as_bool",
+              f"text branch starts {first}; 'true' in _true_set={isinstance(ts, (set, frozenset)) and 'true' in ts}; 'false' in _false_set={isinstance(fs, (set, frozenset)) and 'false' in fs}",
+              "as_bool() lower-cases every text value before the table lookup, so the 'True'/'False' that to_string() writes for boolean options are read back",
+              witness="CryptContext.from_string(ctx.to_string()) raises ValueError('unrecognized ... value: True') for a context with truncate_error=True")
     # coercers
     co = model.fold(model.unit(CTX), ast.Name(id="_coerce_scheme_options", ctx=ast.Load()))
     u = model.unit(CTX)
